@@ -110,14 +110,18 @@ func engineCLISearch(ctx *Ctx) {
 	for hI := 0; hI < nHome; hI++ {
 		base := filepath.Join(ctx.Scratch, fmt.Sprintf("cs%d", hI))
 		h := NewHome(base)
-		cmds := c17UniqueDB(r, []int{6, 20, 60, 150}[hI%4], hI%3)
+		cmds := c17UniqueDB(r, []int{6, 20, 60, 150}[hI%4], (hI+ctx.Shard)%3)
 		dbp := filepath.Join(base, "db.yml")
 		dbKind := "generated"
+		g := hI*ctx.NShards + ctx.Shard // global index of this home over all shards
 		switch {
-		case hI%11 == 7:
+		case g%13 == 5:
+			dbp = ctx.ShippedPath()
+			dbKind = "shipped"
+		case g%11 == 7:
 			dbp = filepath.Join(base, "missing-dir", "nope.yml")
 			dbKind = "missing-path"
-		case hI%11 == 9:
+		case g%11 == 9:
 			os.WriteFile(dbp, []byte("- command: \"broken\n  description: [\n"), 0o644)
 			dbKind = "malformed"
 		default:
@@ -139,9 +143,22 @@ func engineCLISearch(ctx *Ctx) {
 			idx[c.Command+"\x00"+c.Description] = i
 		}
 		words := vlib.DBWords(db.Commands)
+		if len(words) > 3000 {
+			words = words[:3000]
+		}
+		ctx.R.Path("db-kind-"+dbKind, 1)
 		nSearch := 1 + r.Intn(5)
 		prevHist := 0
 		prevQuery := ""
+		// the history lives under the user's configuration directory: $XDG_CONFIG_HOME when set, else $HOME/.config
+		histPath := h.History()
+		var homeEnv []string
+		if g%4 == 1 {
+			xdg := filepath.Join(base, "xdg config")
+			homeEnv = []string{"XDG_CONFIG_HOME=" + xdg}
+			histPath = filepath.Join(xdg, "wtf", "search_history.json")
+			ctx.R.Path("homes-with-xdg-config-home", 1)
+		}
 		for s := 0; s < nSearch; s++ {
 			var raw string
 			switch r.Intn(8) {
@@ -201,9 +218,9 @@ func engineCLISearch(ctx *Ctx) {
 				args = append([]string{"search"}, args...)
 			}
 			args = append(args, "--", raw)
-			var env []string
+			env := append([]string(nil), homeEnv...)
 			if noColorEnv != "" {
-				env = []string{noColorEnv}
+				env = append(env, noColorEnv)
 			}
 			cs := map[string]interface{}{"db": dbKind, "db_entries": len(db.Commands), "args_quoted": fmt.Sprintf("%q", args), "env": env, "search_no": s}
 			ctx.R.Begin(cs)
@@ -380,7 +397,7 @@ func engineCLISearch(ctx *Ctx) {
 				ctx.R.Nontriv(hI, s, fmt.Sprintf("%q", args))
 			}
 			// history: exactly one corresponding newest entry
-			hf, okH := c17ReadHist(h.History())
+			hf, okH := c17ReadHist(histPath)
 			if !okH {
 				ctx.R.Violate(vlib.Violation{Property: "C17", Clause: "history-missing-or-unreadable", Path: "search_history.json", Detail: "after an accepted search the history file is missing or not valid JSON", Witness: cs})
 				continue
